@@ -1051,7 +1051,9 @@ theorem inv_step {s s' : State} (h : Inv s) (op : Op) (hop : OpOK s op) (hs : st
       · simp at hk; subst hk; simp
       · have := h.fresh k l hk; simp only; omega
   | delLayer n =>
-    obtain ⟨h1, h2⟩ := delLayer_sync h.mem h.sync hop hs
+    have hop' : ∀ l, AL.get? s.layers n = some l → s.default ≠ some l.lid := by
+      intro l hl; simp only [OpOK, delOK, hl, decide_eq_true_eq] at hop; exact hop
+    obtain ⟨h1, h2⟩ := delLayer_sync h.mem h.sync hop' hs
     refine ⟨h1, h2, ?_⟩
     simp only [step] at hs
     unfold delLayer at hs
